@@ -8,6 +8,8 @@ def main():
     with ThreadPoolExecutor(max_workers=4) as ex:
         for b in ex.map(simbuild.build, list(simbuild.CONFIG_FLAGS)):
             print("built", b)
-    return 0
+    import selftest
+    sys.argv = [sys.argv[0], "--runs", "600"]
+    return selftest.main()
 if __name__ == "__main__":
     sys.exit(main())
